@@ -328,6 +328,22 @@ func genC16(tier string, seed uint64) {
 	runAgent([]string{"d:" + a(pairs[0]) + ":" + pay(3), "h:" + a(pairs[0]), "d:" + a(pairs[1]) + ":" + pay(3), "e:" + a(pairs[1]), "d:" + a(pairs[0]) + ":" + pay(2), "e:" + a(pairs[0]), "d:" + a(pairs[0]) + ":" + pay(2), "e:" + a(pairs[0])})
 	runAgent([]string{"h:" + a(pairs[0]), "h:" + a(pairs[0]), "d:" + a(pairs[0]) + ":" + pay(4), "e:" + a(pairs[0]), "d:" + a(pairs[0]) + ":" + pay(5), "e:" + a(pairs[0])})
 	runAgent([]string{"p", "u:" + a(pairs[0]) + ":" + pay(10), "p", "h:" + a(pairs[0]), "u:" + a(pairs[0]) + ":" + pay(1), "d:" + a(pairs[0]) + ":" + pay(3), "e:" + a(pairs[0])})
+	// bursts of small data messages on a connection that stays open: every byte must reach the service without a
+	// further message (the reader is signalled per message; a signal lost between its check and its wait would hold
+	// the bytes back)
+	nb := 150
+	if tier == "thorough" {
+		nb = 1500
+	}
+	for i := 0; i < nb; i++ {
+		ms := []string{"h:" + a(pairs[i%3])}
+		for k := 0; k < 12; k++ {
+			// an empty (or tiny) message wakes the reader, which finds nothing and goes back to wait just as the
+			// next message arrives
+			ms = append(ms, "d:"+a(pairs[i%3])+":"+pay([]int{0, 0, 1}[r.Intn(3)]), "d:"+a(pairs[i%3])+":"+pay([]int{1, 699, 700, 701, 1400, 4000}[r.Intn(6)]))
+		}
+		runAgent(ms)
+	}
 	// all interleavings of two connections' sequences (hello, d, d, eof each), for several address pairs
 	seqOf := func(p ap, tag byte) []string {
 		return []string{"h:" + a(p), "d:" + a(p) + ":" + hx([]byte{tag, 1}), "d:" + a(p) + ":" + hx([]byte{tag, 2, 2}), "e:" + a(p)}
